@@ -409,7 +409,8 @@ func inputTypeValidForTypeComponent(ctx context.Context, inputSchema *Schema, tc
 			return nil
 		}
 	}
-	return i18n.NewError(ctx, signermsgs.MsgFFITypeMismatch, inputTypeString, tc.ElementaryType().String())
+	// Note tc.ElementaryType() is only set for elementary components - tc.String() describes any component
+	return i18n.NewError(ctx, signermsgs.MsgFFITypeMismatch, inputTypeString, tc.String())
 }
 
 func buildABIParameterArrayForObject(ctx context.Context, properties map[string]*Schema) (abi.ParameterArray, error) {
